@@ -4404,7 +4404,22 @@ impl Handler {
                         .current_knowledge_graph()
                         .map(str::to_string)
                 });
+                // graphs dropped by an earlier statement of this program
+                let mut dropped_here: Vec<String> = Vec::new();
                 for stmt in &program_statements {
+                    // `.kg use g` after `.kg drop g` in one program cannot switch: the executor
+                    // would stay on the previous graph while the following statements were
+                    // authorized against g.
+                    if let statement::Statement::Meta(statement::MetaCommand::KgUse(name)) = stmt {
+                        if dropped_here.contains(name) {
+                            return Err(format!(
+                                "Knowledge graph '{name}' is dropped earlier in this program"
+                            ));
+                        }
+                    }
+                    if let statement::Statement::Meta(statement::MetaCommand::KgDrop(name)) = stmt {
+                        dropped_here.push(name.clone());
+                    }
                     // Determine which KG the operation targets
                     let target_kg = match stmt {
                         statement::Statement::Meta(
